@@ -1,6 +1,6 @@
 """C03 -- class metric equals functional metric on the concatenated data."""
 import inspect
-from .. import core, streams, sandbox
+from .. import core, streams, sandbox, variation
 from ..catalogue import entries
 from ..compare import close
 from ..model import T
@@ -31,6 +31,9 @@ def ctor_defaults(ctx):
                           finding_id=core.match_finding("C03", n, "ctor_defaults"))
 
 
+MODES = ["f64", "u8", "f64+i8", "i32", "nc", "i16"]
+
+
 def squeeze(v):
     """documented presentation difference: a leading num_tasks dimension of size one"""
     while isinstance(v, list) and len(v) == 1:
@@ -43,35 +46,42 @@ def _job(job):
     from ..catalogue import entry
     e = entry(name)
     out = []
-    for cfg, batches, prior in trials:
+    for cfg, batches, prior, mode in trials:
+      rej0 = variation.rejected()
+      for attempt in (mode, None):
         try:
-            m = e.make(cfg)
-            if prior is not None:
-                # the object is reused across epochs: same number of batches of OTHER data, compute, reset
-                for b in prior:
-                    e.update(m, cfg, b)
-                try:
-                    m.compute()
-                except Exception:
-                    pass
-                m.reset()
-            for b in batches:
-                e.update(m, cfg, b)
-            try:
-                a = e.out_val(m.compute())
-            except Exception:
-                a = T("err")
-            t1 = e.tol          # entries may choose the tolerance per configuration (float32 class states)
-            cat = e.concat(cfg, batches)
-            try:
-                f = e.fn_val(e.functional(cfg, cat))
-            except Exception:
-                f = T("err")
-            tol = max(t1, e.tol)
-            d = None if (isinstance(a, T) and isinstance(f, T) and a.tag == f.tag == "err") else close(squeeze(f), squeeze(a), tol)
-            out.append(d)
+          with variation.variant(attempt):
+              m = e.make(cfg)
+              if prior is not None:
+                  # the object is reused across epochs: same number of batches of OTHER data, compute, reset
+                  for b in prior:
+                      e.update(m, cfg, b)
+                  try:
+                      m.compute()
+                  except Exception:
+                      pass
+                  m.reset()
+              for b in batches:
+                  e.update(m, cfg, b)
+              try:
+                  a = e.out_val(m.compute())
+              except Exception:
+                  a = T("err")
+              t1 = e.tol          # entries may choose the tolerance per configuration (float32 class states)
+              cat = e.concat(cfg, batches)
+              try:
+                  f = e.fn_val(e.functional(cfg, cat))
+              except Exception:
+                  f = T("err")
+              tol = max(t1, e.tol)
+              d = None if (isinstance(a, T) and isinstance(f, T) and a.tag == f.tag == "err") else close(squeeze(f), squeeze(a), tol)
+          if attempt is not None and variation.rejected() != rej0:
+              continue       # the real code refused this presentation in one of the two forms: both forms must see the same tensors
+          out.append(d)
+          break
         except Exception as ex:
             out.append(f"harness exception {type(ex).__name__}: {ex}")
+            break
     return out
 
 
@@ -93,7 +103,8 @@ def run(ctx):
             prior = None
             if t % 3 == 0:
                 prior = [e.gen_batch(ctx.rng, cfg, max(e.min_batch, ctx.rng.choice([1, 2, 3, 7]))) for _ in range(nb)]
-            trials.append((cfg, batches, prior))
+            mode = None if t % 2 == 0 else MODES[(t // 2) % len(MODES)]      # half of the trials: same numbers, other presentation
+            trials.append((cfg, batches, prior, mode))
         jobs.append((e.name, trials))
     res = sandbox.run_jobs(_job, jobs, timeout=ctx.n(150, 900), workers=12)
     for (name, trials), (status, val) in zip(jobs, res):
@@ -101,11 +112,12 @@ def run(ctx):
         if status != "ok":
             bad = {"observed": f"worker {status}: {val}"}
             val = []
-        for (cfg, batches, prior), d in zip(trials, val):
-            s.case((name, repr(cfg), repr(batches)), len(batches) >= 2, sample={"class": name, "cfg": cfg, "batches": len(batches), "prior_epoch": prior is not None})
+        for (cfg, batches, prior, mode), d in zip(trials, val):
+            s.case((name, repr(cfg), repr(batches)), len(batches) >= 2, sample={"class": name, "cfg": cfg, "batches": len(batches), "prior_epoch": prior is not None, "presentation": mode or "base"})
             s.count("class:" + name)
+            s.count("presentation:" + (mode or "base"))
             if d and bad is None:
-                bad = {"cfg": cfg, "batches": batches, "prior_epoch": prior, "observed": d}
+                bad = {"cfg": cfg, "batches": batches, "prior_epoch": prior, "presentation": mode or "base", "observed": d}
         if bad:
             ctx.violation("failing-input", name, {"check": "class_vs_functional", "class": name, **bad, "broken": f"tie:fn:{name}"},
                           finding_id=core.match_finding("C03", name, str(bad["observed"])))
